@@ -19,12 +19,29 @@ import DarkluaModel.C17.Driver
 import DarkluaModel.C18.Driver
 import DarkluaModel.C19.Driver
 import DarkluaModel.C20.Driver
+import DarkluaModel.Shared.AstSexp
 /-!
 Line-protocol driver. One request per line: `<prop>.<op> <arg>*` (space separated; byte
 strings are hex, trees are S-expressions without spaces inside atoms). One answer line per
 request. Imports only `Model`/`Driver` files, which are core-only, so this links as an exe.
 -/
 open DarkluaModel
+
+/-- `ast.echo <block sexp>` / `ast.echoexpr <expr sexp>`: parse with the shared AST codec and print
+it back (`error` when the reader rejects it). Used by `dlv astcheck` to tie the Rust codec
+(`harness/src/astsexp.rs`) to the Lean one (`Shared/AstSexp.lean`). -/
+def astHandle (op : String) (args : List String) : String :=
+  let text := " ".intercalate args
+  match op with
+  | "echo" =>
+    match Block.parse? text with
+    | some b => b.toSexp.toString
+    | none => "error"
+  | "echoexpr" =>
+    match Expr.parse? text with
+    | some e => e.toSexp.toString
+    | none => "error"
+  | _ => "unknown-op " ++ op
 
 def dispatch (line : String) : String :=
   match line.trimAscii.toString.splitOn " " with
@@ -54,6 +71,7 @@ def dispatch (line : String) : String :=
       | "c19" => C19.handle op args
       | "c20" => C20.handle op args
       | "sem" => Shared.handle op args
+      | "ast" => astHandle op args
       | "ping" => "pong"
       | _ => "unknown-prop " ++ prop
     | _ => if head == "ping" then "pong" else "bad-request"
